@@ -61,3 +61,6 @@ pub fn oracle_floor_helpers_holds(a: i64, b: i128) {
     let r2 = fmod128(b, NPD);
     assert!(q2 * NPD + r2 == b && r2 >= 0 && r2 < NPD);
 }
+pub fn oracle_rd_bound_holds(y: i32, m: u32, d: u32) {
+    assert!(contract_spec_rd_bound(y, m, d, spec_rd(y, m, d)));
+}
